@@ -15,7 +15,8 @@ class C01(core.Check):
     pid = "C01"
     props_module = "CBV.Props.C01"
     workers = 8
-    modes = [("well", 0.4), ("conflict", 0.25), ("double", 0.15), ("under", 0.1), ("sandwich", 0.1)]
+    compare_level = "counts"
+    modes = [("well", 0.35), ("conflict", 0.2), ("double", 0.15), ("full", 0.12), ("under", 0.08), ("sandwich", 0.1)]
     rule = (
         "random subsets (1..8 quick / 1..14 thorough) of cells of a jittered, anisotropically scaled lattice "
         "(face, edge-only and vertex-only contacts, detached cells), each block with one of the 24 corner "
@@ -55,7 +56,7 @@ class C01(core.Check):
         return [pc.model_request(impl["internals"], impl["chops"])]
 
     def compare(self, case: dict, impl: Any, model: List[str]) -> Optional[str]:
-        return pc.compare_with_model(impl, model[0])
+        return pc.compare_with_model(impl, model[0], level=self.compare_level)
 
     def oracle(self, case: dict, impl: Any) -> List[dict]:
         out: List[dict] = []
@@ -83,6 +84,21 @@ class C01(core.Check):
             pass  # a preserved size that does not fit on an edge is rejected (C03's clause)
         else:
             out.append({"site": f"Mesh.write:unexpected-{oc}", "what": impl.get("message")})
+        # the same mesh written once more: a retry after an error or a second export obeys the property as well
+        sec = impl.get("second") or {}
+        if sec.get("outcome") == "ok":
+            for v in pc.oracle_counts({"hex": sec["hex"]}):
+                v["site"] += ":second-write"
+                out.append(v)
+            if exp == "inconsistent":
+                out.append(
+                    {
+                        "site": "Mesh.write:conflicting-counts-written-on-second-write",
+                        "what": f"first write: {oc}; the second write of the same mesh produced a dictionary",
+                    }
+                )
+        elif sec.get("outcome") == "hang":
+            out.append({"site": "Mesh.write:hang:second-write", "what": "second write did not return"})
         if oc != "ok" and impl.get("file_written"):
             out.append({"site": "Mesh.write:file-left-after-error", "what": oc})
         return out
